@@ -1,5 +1,5 @@
 import sys, os, json, time, collections
-sys.path.insert(0, '/repo'); sys.path.insert(0, '/verif')
+import os; sys.path.insert(0, os.environ.get('RSIM_REPO','/repo')); sys.path.insert(0, '/verif')
 import casadi, rockit
 from rsim import runner, hist, props
 prop = sys.argv[1]; n0=int(sys.argv[2]); n1=int(sys.argv[3])
